@@ -185,6 +185,91 @@ type Case struct {
 	Entry    int
 	Dumb     int // which file the dumb request asks for
 	Prefix   bool
+	// Raw > 0: the loader gets the base filesystem a server would really pass,
+	// unwrapped (rawBases[Raw-1]; Base is ignored), so code that looks at the
+	// concrete type of the base sees it. Without the recording wrapper the
+	// verdict rests on sentinel content, on the storages the loader handed out
+	// and on the file descriptors the call left open. 0 (old replay files):
+	// recording wrapper around the base chosen by Base.
+	Raw int
+}
+
+// rawBases are the rooted OS filesystems go-billy v6 can build for a directory.
+var rawBases = []string{
+	"osfs.New(R)", "osfs.New(R,WithBoundOS)", "osfs.New(R,WithMmap)",
+	"osfs.FromRoot(OpenRoot(R))", "osfs.FromRoot(OpenRoot(R),WithMmap)",
+	"osfs.New(parent).Chroot(R)", "osfs.Default.Chroot(R)",
+}
+
+func rawBase(k int, fx *fixture) (billy.Filesystem, func()) {
+	none := func() {}
+	switch k {
+	case 0:
+		return osfs.New(fx.R), none
+	case 1:
+		return osfs.New(fx.R, osfs.WithBoundOS()), none
+	case 2:
+		return osfs.New(fx.R, osfs.WithMmap()), none
+	case 3, 4:
+		root, err := os.OpenRoot(fx.R)
+		if err != nil {
+			panic("INFRA: OpenRoot: " + err.Error())
+		}
+		var opts []osfs.Option
+		if k == 4 {
+			opts = append(opts, osfs.WithMmap())
+		}
+		rfs, err := osfs.FromRoot(root, opts...)
+		if err != nil {
+			panic("INFRA: FromRoot: " + err.Error())
+		}
+		return rfs, func() { root.Close() }
+	case 5:
+		f, err := osfs.New(fx.S).Chroot("R")
+		if err != nil {
+			panic("INFRA: Chroot: " + err.Error())
+		}
+		return f, none
+	default:
+		f, err := osfs.Default.Chroot(fx.R)
+		if err != nil {
+			panic("INFRA: Chroot: " + err.Error())
+		}
+		return f, none
+	}
+}
+
+// spyLoader passes requests through to the loader under test and keeps the
+// storages it hands out, whichever entry point asked for them.
+type spyLoader struct {
+	inner transport.Loader
+	mu    sync.Mutex
+	got   []storage.Storer
+}
+
+func (s *spyLoader) Load(u *url.URL) (storage.Storer, error) {
+	st, err := s.inner.Load(u)
+	if err == nil && st != nil {
+		s.mu.Lock()
+		s.got = append(s.got, st)
+		s.mu.Unlock()
+	}
+	return st, err
+}
+
+// openFDs maps every open descriptor of this process to what it refers to.
+func openFDs() map[string]string {
+	m := map[string]string{}
+	ents, err := os.ReadDir("/proc/self/fd")
+	if err != nil {
+		panic("INFRA: /proc/self/fd: " + err.Error())
+	}
+	for _, e := range ents {
+		if t, err := os.Readlink("/proc/self/fd/" + e.Name()); err == nil {
+			m[e.Name()] = t
+		}
+	}
+	return m
 }
 
 var dumbFiles = []string{"HEAD", "info/refs", "objects/info/packs", "objects/info/alternates", "{OUTOBJ}"}
@@ -194,6 +279,7 @@ var reqTokens = []string{
 	"in.git", "in", "win", "ln-in", // legitimate
 	"gf0", "gf1", "gf2", "gf-ln",
 	"ln-abs", "ln-rel", "ln-work", "sub", "parts.git", "alt.git",
+	"ln-out/repo.git", "ln-out/work", "ln-out", "ln-work/.git", // a parent component is the symlink (relative / absolute target)
 	"..", ".", "", "...", "out", "repo.git", "repo", "work", ".git", "objects", "refs",
 	"{OUT}", "{R}", "../out", "%2e%2e", "..%2f..", "..\\", "R", "~", "file:", "git@h:..", "http:",
 }
@@ -201,7 +287,7 @@ var reqTokens = []string{
 var gitfileTargets = []string{
 	"{OUT}/repo.git", "{OUT}/work/.git", "{OUT}/work", "{OUT}/repo",
 	"../../out/repo.git", "../../out/work/.git", "../../../../../../../../..{OUT}/repo.git",
-	"../ln-abs", "../ln-rel", "../ln-work/.git", "../parts.git", "../alt.git",
+	"../ln-abs", "../ln-rel", "../ln-work/.git", "../ln-out/repo.git", "../parts.git", "../alt.git",
 	"../in.git", "{R}/in.git", "/in.git", "../win/.git", "..", ".", "", "/", "{R}/../out/repo.git", "{R}/ln-abs",
 	"..\\..\\out\\repo.git", "/../out/repo.git",
 }
@@ -215,6 +301,10 @@ func gen(t *rapid.T, _ *evid.Recorder) Case {
 		Entry:  rapid.IntRange(0, nEntries-1).Draw(t, "entry"),
 		Dumb:   rapid.IntRange(0, len(dumbFiles)-1).Draw(t, "dumb"),
 		Prefix: rapid.IntRange(0, 4).Draw(t, "prefix") == 4,
+	}
+	if rapid.Bool().Draw(t, "rawbase") { // half of the cases: unwrapped base
+		c.Raw = rapid.IntRange(1, len(rawBases)).Draw(t, "raw")
+		c.Base = 0
 	}
 	ng := rapid.IntRange(0, 3).Draw(t, "ngitfiles")
 	for i := 0; i < ng; i++ {
@@ -230,7 +320,7 @@ func gen(t *rapid.T, _ *evid.Recorder) Case {
 	for i := 0; i < nr; i++ {
 		// bias towards the fixtures that exist
 		if rapid.Bool().Draw(t, "fixture") {
-			c.Req = append(c.Req, rapid.SampledFrom(reqTokens[:14]).Draw(t, "tokf"))
+			c.Req = append(c.Req, rapid.SampledFrom(reqTokens[:18]).Draw(t, "tokf"))
 		} else {
 			c.Req = append(c.Req, rapid.SampledFrom(reqTokens).Draw(t, "tok"))
 		}
@@ -241,13 +331,13 @@ func gen(t *rapid.T, _ *evid.Recorder) Case {
 // ---------------------------------------------------------------- fixture
 
 type fixture struct {
-	S, R, Out        string
-	inside, outside  *dagx.Built
-	altOnly          *dagx.Built
-	outObjRel        string // objects/xx/yyyy of the outside commit
-	outObjBytes      []byte
-	outsideCommit    string
-	altCommit        string
+	S, R, Out       string
+	inside, outside *dagx.Built
+	altOnly         *dagx.Built
+	outObjRel       string // objects/xx/yyyy of the outside commit
+	outObjBytes     []byte
+	outsideCommit   string
+	altCommit       string
 }
 
 func mustWrite(p, content string) {
@@ -331,6 +421,7 @@ func build(c Case) *fixture {
 	mustSymlink(filepath.Join(fx.Out, "repo.git"), filepath.Join(fx.R, "ln-abs"))
 	mustSymlink("../out/repo.git", filepath.Join(fx.R, "ln-rel"))
 	mustSymlink(filepath.Join(fx.Out, "work"), filepath.Join(fx.R, "ln-work"))
+	mustSymlink("../out", filepath.Join(fx.R, "ln-out"))
 	mustSymlink(filepath.Join(fx.Out, "work", ".git"), filepath.Join(fx.R, "sub", ".git"))
 	parts := filepath.Join(fx.R, "parts.git")
 	mustWrite(filepath.Join(parts, "HEAD"), "ref: refs/heads/main\n")
@@ -387,6 +478,7 @@ type nopWC struct{ io.Writer }
 func (nopWC) Close() error { return nil }
 
 var hostileTokens = map[string]string{
+	"ln-out/repo.git": "symlink-parent-rel", "ln-out/work": "symlink-parent-rel", "ln-out": "symlink-parent-rel", "ln-work/.git": "symlink-parent-abs",
 	"gf-ln": "gitfile-to-symlink", "ln-abs": "symlink-abs", "ln-rel": "symlink-rel", "ln-work": "symlink-abs", "sub": "symlink-dotgit",
 	"parts.git": "symlinked-parts", "alt.git": "alternates", "..": "dotdot", "../out": "dotdot", "{OUT}": "abs-outside",
 	"..%2f..": "dotdot-variant", "%2e%2e": "dotdot-variant", "..\\": "dotdot-variant", "git@h:..": "url-syntax", "file:": "url-syntax", "http:": "url-syntax",
@@ -444,12 +536,21 @@ func check(c Case) evid.Result {
 	defer os.RemoveAll(fx.S)
 
 	var inner billy.Filesystem
-	switch c.Base {
-	case 0:
+	raw := c.Raw > 0
+	if raw {
+		c.Raw = (c.Raw-1)%len(rawBases) + 1
+		c.Base = 0
+	}
+	switch {
+	case raw:
+		var done func()
+		inner, done = rawBase(c.Raw-1, fx)
+		defer done()
+	case c.Base == 0:
 		inner = osfs.New(fx.R)
-	case 1:
+	case c.Base == 1:
 		inner = osfs.New(fx.R, osfs.WithBoundOS())
-	case 2:
+	case c.Base == 2:
 		root, err := os.OpenRoot(fx.R)
 		if err != nil {
 			panic("INFRA: OpenRoot: " + err.Error())
@@ -460,13 +561,17 @@ func check(c Case) evid.Result {
 			panic("INFRA: FromRoot: " + err.Error())
 		}
 		inner = rfs
-	case 3:
+	case c.Base == 3:
 		// never generated: a deliberately leaky base (lexical containment only, symlinks are followed)
 		// used by hand through a replay file to show that the recording oracle sees escapes
 		inner = chroot.New(osfs.New("/"), fx.R)
 	}
 	log := &accessLog{}
-	loader := transport.NewFilesystemLoader(&recFS{inner: inner, log: log}, c.Strict)
+	var loaderFS billy.Filesystem = &recFS{inner: inner, log: log}
+	if raw {
+		loaderFS = inner
+	}
+	loader := &spyLoader{inner: transport.NewFilesystemLoader(loaderFS, c.Strict)}
 
 	p := fx.subst(strings.Join(c.Req, "/"))
 	if c.Lead && !strings.HasPrefix(p, "/") {
@@ -476,7 +581,12 @@ func check(c Case) evid.Result {
 
 	cls := classes(c)
 	res.NonTrivial = len(cls) > 0
-	res.Labels = append(res.Labels, "entry="+entryName[c.Entry], fmt.Sprintf("base=%d", c.Base))
+	baseLabel := fmt.Sprintf("base=%d", c.Base)
+	if raw {
+		baseLabel = "base=unwrapped:" + rawBases[c.Raw-1]
+		res.Labels = append(res.Labels, "base=unwrapped")
+	}
+	res.Labels = append(res.Labels, "entry="+entryName[c.Entry], baseLabel)
 	for _, k := range cls {
 		res.Labels = append(res.Labels, "hostile:"+k)
 	}
@@ -501,6 +611,7 @@ func check(c Case) evid.Result {
 	}
 	ctx, cancel := context.WithTimeout(context.Background(), 30*time.Second)
 	defer cancel()
+	fdsBefore := openFDs()
 	switch c.Entry {
 	case eLoad:
 		var err error
@@ -552,7 +663,17 @@ func check(c Case) evid.Result {
 			sess.Close()
 		}
 	}
+	fdsAfter := openFDs()
+	loader.mu.Lock()
+	handed := append([]storage.Storer(nil), loader.got...)
+	loader.mu.Unlock()
 	res.Labels = append(res.Labels, "outcome="+outcome)
+	if len(handed) > 0 {
+		res.Labels = append(res.Labels, "loader-handed-out-storage")
+		if raw && len(cls) > 0 {
+			res.Labels = append(res.Labels, "unwrapped+hostile-request+storage-handed-out")
+		}
+	}
 	if outcome == "loaded" && len(cls) > 0 {
 		res.Labels = append(res.Labels, "hostile-request-answered")
 	}
@@ -563,7 +684,7 @@ func check(c Case) evid.Result {
 	// 1. nothing of the outside repository is handed back
 	for _, marker := range []string{"OUTSIDE-SENTINEL", "OUTSIDE-PACKED", "OBJECT-FROM-OUTSIDE"} {
 		if bytes.Contains(served, []byte(marker)) {
-			res.Fail = evid.Failf("C40/serves-outside-content/"+sigTail, "request path %q (strict=%v, base=%d, gitfiles=%q): the response contains %q, which only exists in the repository outside the root %s", p, c.Strict, c.Base, c.Gitfiles, marker, fx.R)
+			res.Fail = evid.Failf("C40/serves-outside-content/"+sigTail, "request path %q (strict=%v, %s, gitfiles=%q): the response contains %q, which only exists in the repository outside the root %s", p, c.Strict, baseLabel, c.Gitfiles, marker, fx.R)
 			return res
 		}
 	}
@@ -571,20 +692,51 @@ func check(c Case) evid.Result {
 		res.Fail = evid.Failf("C40/serves-outside-content/"+sigTail, "request path %q: dumb HTTP served the loose object %s that exists only outside the root", p, fx.outsideCommit)
 		return res
 	}
-	// 2. a returned storage is rooted inside R
-	if st != nil {
-		if fss, ok := st.(storer.FilesystemStorer); ok {
-			root := fss.Filesystem().Root()
-			real, err := filepath.EvalSymlinks(root)
-			if err == nil && !fx.inR(real) {
-				res.Fail = evid.Failf("C40/storage-rooted-outside/"+sigTail, "request path %q (strict=%v, gitfiles=%q): Load returned a storage rooted at %s (real %s), outside %s", p, c.Strict, c.Gitfiles, root, real, fx.R)
-				return res
-			}
-		}
-		if cl, ok := st.(io.Closer); ok {
+	// 2. every storage the loader handed out (to the caller of Load, to the
+	// backend, to the file transport) is rooted inside R and exposes nothing of
+	// the outside repository
+	closeSt := func() {
+		if cl, ok := st.(io.Closer); ok && st != nil {
 			cl.Close()
 		}
 	}
+	for _, h := range handed {
+		if fss, ok := h.(storer.FilesystemStorer); ok {
+			root := fss.Filesystem().Root()
+			real, err := filepath.EvalSymlinks(root)
+			if err == nil && !fx.inR(real) {
+				closeSt()
+				res.Fail = evid.Failf("C40/storage-rooted-outside/"+sigTail, "request path %q (strict=%v, %s, gitfiles=%q): the loader handed out a storage rooted at %s (real %s), outside %s", p, c.Strict, baseLabel, c.Gitfiles, root, real, fx.R)
+				return res
+			}
+		}
+		if c.Entry != eLoad { // for Load the description is part of what was served
+			d := describe(h, fx)
+			for _, marker := range []string{"OUTSIDE-SENTINEL", "OUTSIDE-PACKED", "OBJECT-FROM-OUTSIDE"} {
+				if bytes.Contains(d, []byte(marker)) {
+					res.Fail = evid.Failf("C40/loaded-storage-exposes-outside-content/"+sigTail, "request path %q (strict=%v, %s, gitfiles=%q): the storage the loader handed to the entry point exposes %q, which only exists in the repository outside the root %s:\n%s", p, c.Strict, baseLabel, c.Gitfiles, marker, fx.R, d)
+					return res
+				}
+			}
+		}
+	}
+	// 2b. no file descriptor opened during the call and still open refers to a
+	// location outside R (the scratch tree holds nothing but R and the outside
+	// repositories)
+	var fdNames []string
+	for n := range fdsAfter {
+		fdNames = append(fdNames, n)
+	}
+	sort.Strings(fdNames)
+	for _, n := range fdNames {
+		t := strings.TrimSuffix(fdsAfter[n], " (deleted)")
+		if fdsBefore[n] != fdsAfter[n] && strings.HasPrefix(t, fx.S+"/") && !fx.inR(t) {
+			closeSt()
+			res.Fail = evid.Failf("C40/holds-open-file-outside/"+sigTail, "request path %q (strict=%v, %s, gitfiles=%q): after the call descriptor %s of the process refers to %s, outside %s", p, c.Strict, baseLabel, c.Gitfiles, n, t, fx.R)
+			return res
+		}
+	}
+	closeSt()
 	// 3. no successful filesystem access below the loader left R
 	log.mu.Lock()
 	recs := append([]access(nil), log.recs...)
